@@ -392,3 +392,10 @@ def maybe_sibling(rnd, scn, p=0.1):
     if rnd.random() < p:
         scn["sibling"] = {"when": rnd.choice(["before", "after"]), "field": {"kind": "const", "B": rnd.choice([0.3, 0.7, 1.5])}}
     return scn
+
+
+def maybe_restored(rnd, scn, p=0.1):
+    """With probability p the run uses the Device read back from an HDF5 file it was saved to."""
+    if rnd.random() < p:
+        scn["device_restored"] = True
+    return scn
